@@ -41,17 +41,32 @@ fn bounds(variants: usize, a1: usize, a: usize, r: usize, shapes: Vec<Shape>) ->
         shapes,
         strategies: vec![0, 1, 2, 3],
         ghosts: false,
+        ghosts_late: true,
         with_ranks: false,
         naming: Naming::Unique,
+        prop: String::new(),
     }
 }
 
 fn passes(prop: &str, tier: Tier) -> Vec<Bounds> {
+    let mut v = passes_inner(prop, tier);
+    for b in &mut v {
+        b.prop = if prop == "C12L" { "C12".to_owned() } else { prop.to_owned() };
+    }
+    v
+}
+
+fn passes_inner(prop: &str, tier: Tier) -> Vec<Bounds> {
     let q = tier == Tier::Quick;
     match prop {
         "C01" | "C02" | "C03" | "C12L" => {
             if q {
-                vec![bounds(3, 3, 1, 1, shapes8()), bounds(4, 2, 1, 1, shapes8()), bounds(2, 2, 2, 2, shapes14())]
+                let mut v = vec![bounds(3, 3, 1, 1, shapes8()), bounds(4, 2, 1, 1, shapes8()), bounds(2, 2, 2, 2, shapes14())];
+                // data added and removed again before the close (at once / after the next addition)
+                let mut g = bounds(4, 2, 1, 1, vec![S(1, 1), S(4, 4), S(0, 1), S(3, 1)]);
+                g.ghosts = true;
+                v.push(g);
+                v
             } else {
                 // ordered by cost; the generated-text oracles run on the first three (gen_text())
                 vec![
@@ -65,14 +80,29 @@ fn passes(prop: &str, tier: Tier) -> Vec<Bounds> {
                     bounds(3, 2, 2, 1, shapes14()),
                     bounds(3, 3, 2, 2, shapes8()),
                 ]
+                .into_iter()
+                .enumerate()
+                .flat_map(|(i, b)| {
+                    if i == 1 {
+                        let mut g = bounds(4, 2, 1, 1, shapes8());
+                        g.ghosts = true;
+                        vec![b, g]
+                    } else {
+                        vec![b]
+                    }
+                })
+                .collect()
             }
         }
         "C13" | "C19" => {
             // same size with different alignment (4/4 and 4/1, 0/1 and 0/4) must be in every alphabet:
             // the grouping of additions by size is where an ordering can become arbitrary
-            let six = vec![S(1, 1), S(4, 4), S(4, 1), S(0, 4), S(8, 8), Shape { size: 2, align: 2, uninit: true }];
+            let six = vec![S(1, 1), S(4, 4), S(4, 1), S(0, 4), Shape { size: 2, align: 2, uninit: true }];
             let mut v = match (prop, q) {
-                ("C13", true) => vec![bounds(3, 2, 1, 1, shapes_gen()), bounds(2, 2, 2, 2, shapes_gen())],
+                ("C13", true) => vec![
+                    bounds(3, 2, 1, 1, vec![S(1, 1), S(4, 4), S(0, 1), S(3, 1), Shape { size: 2, align: 2, uninit: true }]),
+                    bounds(2, 2, 2, 1, shapes_gen()),
+                ],
                 ("C13", false) => vec![bounds(3, 3, 1, 1, shapes_gen()), bounds(4, 2, 1, 1, shapes_gen()), bounds(2, 3, 2, 2, shapes_gen())],
                 (_, true) => vec![bounds(3, 2, 1, 1, six)],
                 (_, false) => vec![bounds(3, 2, 1, 1, shapes_gen()), bounds(2, 3, 2, 2, shapes_gen()), bounds(4, 2, 1, 1, six)],
@@ -80,6 +110,8 @@ fn passes(prop: &str, tier: Tier) -> Vec<Bounds> {
             for b in &mut v {
                 b.ghosts = true;
                 b.with_ranks = true;
+                // determinism does not depend on when a ghost goes away: C19 keeps the plain ghost only
+                b.ghosts_late = prop != "C19";
             }
             v
         }
@@ -93,6 +125,12 @@ fn passes(prop: &str, tier: Tier) -> Vec<Bounds> {
                 b.with_ranks = true;
                 b.naming = Naming::Reuse;
             }
+            // orphan ids: data added and removed again before the close
+            let mut g = bounds(3, 2, 1, 1, vec![S(1, 1), S(4, 4), S(0, 1), S(8, 8)]);
+            g.ghosts = true;
+            g.with_ranks = true;
+            g.naming = Naming::Reuse;
+            v.push(g);
             v
         }
         _ => vcommon::machinery_error("hist: unknown property"),
